@@ -1118,6 +1118,12 @@ func (rn *Runner) Run() {
 			r.Emit("gone")
 		}
 	}
+	// what is handed to Send / DialAndSend: the messages - with variant "nilmsg" with a nil entry after the first one
+	// (nil entries are skipped by the library; errors must still land on the message they belong to)
+	batch := msgs
+	if cfg.Variant == "nilmsg" && len(msgs) >= 2 {
+		batch = append([]*mail.Msg{msgs[0], nil}, msgs[1:]...)
+	}
 	switch cfg.Op {
 	case "RawAuth": // the smtp package used directly: NewClient, Auth with its lazy EHLO, Quit
 		r.Emit("call", "op", "RawAuth")
@@ -1229,7 +1235,7 @@ func (rn *Runner) Run() {
 		if derr == nil {
 			r.Emit("call", "op", "Send")
 			var serr error
-			el = rn.timed(func() { serr = c.Send(msgs...) })
+			el = rn.timed(func() { serr = c.Send(batch...) })
 			sendRet("Send", serr, el)
 			var cerr error
 			el = rn.timed(func() { cerr = c.Close() })
@@ -1238,7 +1244,7 @@ func (rn *Runner) Run() {
 	case "DialAndSend":
 		r.Emit("call", "op", "DialAndSend")
 		var serr error
-		el := rn.timed(func() { serr = c.DialAndSendWithContext(opctx, msgs...) })
+		el := rn.timed(func() { serr = c.DialAndSendWithContext(opctx, batch...) })
 		sendRet("DialAndSend", serr, el)
 	case "Reset", "Reset2":
 		r.Emit("call", "op", "Dial")
